@@ -148,6 +148,11 @@ def all_variants():
             add("scheme_mismatch", "validation")
             if st != "simple":
                 add("partition_mismatch", "validation")
+                # ... every WAY of differing: partition_on omitted / [] / '' on a partitioned dataset, a subset, a superset, the same
+                # columns in another order
+                for alt in (("superset",) if st == "hive" else ("omitted", "empty_list", "empty_str", "subset", "superset", "reordered")):
+                    if not (alt in ("subset", "reordered") and st != "part2"):
+                        add("partition_mismatch", "validation", where=alt)
             for pos in ("first", "middle", "last"):
                 add("cols_extra", "validation", pos=pos)
                 add("cols_missing", "validation", pos=pos)
@@ -311,6 +316,13 @@ def build(v, rng, sid):
             kw["partition_on"] = []
     elif kind == "append_to_drill":
         pass
+    elif kind == "partition_mismatch" and v.get("where"):
+        alt = v["where"]
+        if alt == "omitted":
+            kw.pop("partition_on")
+        else:
+            kw["partition_on"] = {"empty_list": [], "empty_str": "", "subset": list(pon[:-1]), "superset": list(pon) + ["a"],
+                                  "reordered": list(pon[::-1])}[alt]
     elif kind == "partition_mismatch":
         alts = [p for p in ([], ["k"], ["j"], ["k", "j"], ["j", "k"], ["a"]) if p != list(pon) and all(c in L.labels(frame1) for c in p)]
         kw["partition_on"] = rng.choice(alts)
@@ -509,7 +521,9 @@ def abstract_request(sc, pf):
     if kw.get("append") == "overwrite":
         return ["overwrite", labs, [1] * len(labs)]
     if kw.get("append"):
-        return ["append", kw["file_scheme"].encode(), [c.encode() for c in kw["partition_on"]], labs, [1] * len(labs)]
+        pon_req = kw.get("partition_on", [])
+        pon_req = ([pon_req] if pon_req else []) if isinstance(pon_req, str) else list(pon_req)
+        return ["append", kw["file_scheme"].encode(), [c.encode() for c in pon_req], labs, [1] * len(labs)]
     typed = []
     ignore = kw["partition_on"] if kw["file_scheme"] != "simple" else []
     for i, l in enumerate(L.labels(sc["frame1"])):
@@ -829,7 +843,7 @@ def run(ctx):
     if ctx.quick():
         by = {}
         for v in variants:
-            by.setdefault((v["state"], v["kind"], v.get("family"), v.get("oe"), v.get("where"), tuple(v.get("opts") or ())), []).append(v)
+            by.setdefault((v["state"], v["kind"], v.get("family") or "", v.get("oe") or "", v.get("where") or "", tuple(v.get("opts") or ())), []).append(v)
         variants = [v for _, vs in sorted(by.items())
                     for v in (vs if (vs[0]["kind"].startswith("read_") and not vs[0].get("opts")) else rng.sample(vs, min(len(vs), 1 if vs[0].get("family") else (4 if vs[0]["expect"] == "late" else 2))))]
     else:
@@ -881,6 +895,8 @@ def run(ctx):
             ctx.count("missing_value_in_required_column", "%s/%s/%s" % (v["family"], v["pos"], v["rg"]))
         elif v.get("family"):
             ctx.count("unsupported_family", "%s/%s/%s" % (v["family"], v["oe"], v["pos"]))
+        if v["kind"] == "partition_mismatch":
+            ctx.count("partition_mismatch", "%s/%s" % (v.get("where") or "other list", v["state"]))
         if v["kind"] == "io_fault":
             ctx.count("io_fault", "%s/%s" % (v["where"], v["fault_variant"]))
         if v["kind"].startswith("read_"):
